@@ -157,6 +157,16 @@ func c18Compare(st *c18Stats, name string, exec func(kind string) c18Obs) *engin
 	if d := a.diff(c); d != "" {
 		return tagged(viol("independent-node-agrees", "%s on an independently constructed node with identical state: %s", name, d), "how", "twin")
 	}
+	// "cold": a node that was restarted on this very state (newly constructed keepers, nothing in
+	// process memory) against the exploring node, whose keepers have by now served every transition,
+	// failed transaction and probe of the search so far
+	end = c18MapBegin(nil)
+	e := exec("cold")
+	end()
+	st.execs.Add(1)
+	if d := a.diff(e); d != "" {
+		return tagged(viol("restarted-node-agrees", "%s on a node restarted on the same state (newly constructed keepers): %s", name, d), "how", "cold")
+	}
 	for si, s := range sites {
 		n := s[1].(int)
 		st.sitesHit.Add(1)
@@ -261,6 +271,9 @@ func (y *c18L1Sys) Step(s *c16L1State, l engine.Letter) (*c16L1State, string, *e
 				world.CopyState(s.ctx, s.w.StoreKeys, tctx, tw.StoreKeys)
 				w, ctx = tw, tctx
 			}
+			if kind == "cold" {
+				w = s.w.Respawn()
+			}
 			var o c18Obs
 			func() {
 				defer func() {
@@ -302,6 +315,13 @@ func (y *c18L1Sys) Step(s *c16L1State, l engine.Letter) (*c16L1State, string, *e
 			o := obsOf(r)
 			o.dump = dumpHash(tctx, tw)
 			return o, tctx, r.OK()
+		case "cold":
+			cw := s.w.Respawn()
+			ctx, _ := s.ctx.CacheContext()
+			r := deliver(cw, ctx, op.msg(&c16L1State{ctx: ctx, w: cw, nbr: s.nbr}))
+			o := obsOf(r)
+			o.dump = dumpHash(ctx, cw)
+			return o, ctx, r.OK()
 		default:
 			ctx, _ := s.ctx.CacheContext()
 			r := deliver(s.w, ctx, op.msg(s))
@@ -550,6 +570,9 @@ func (y *c18L2Sys) Step(s *c18L2State, l engine.Letter) (*c18L2State, string, *e
 			world.CopyState(s.ctx, s.w.StoreKeys, ctx, tw.StoreKeys)
 		} else {
 			ctx, _ = s.ctx.CacheContext()
+			if kind == "cold" {
+				w = s.w.Respawn()
+			}
 		}
 		// the plan table lives in the keeper's memory, not in the store: it is set from the state before
 		// a run, except for the immediate repeat, which inherits what run A left behind
